@@ -580,6 +580,15 @@ func (am *AccountingManager) pendingRecordProcessor() {
 
 // processPendingRecord attempts to send a pending record
 func (am *AccountingManager) processPendingRecord(record *PendingAcctRecord) {
+	// A record sits in both the queue channel and the retry map. Whichever path delivers
+	// (or abandons) it first removes it from the map; the other must not send it again.
+	am.pendingMu.RLock()
+	_, stillPending := am.pendingRecords[record.ID]
+	am.pendingMu.RUnlock()
+	if !stillPending {
+		return
+	}
+
 	am.verifCrashPoint(7, record.ID)
 	ctx, cancel := context.WithTimeout(am.ctx, 5*time.Second)
 	defer cancel()
